@@ -143,6 +143,13 @@ class Table:
             if isinstance(st, (ast.Continue,)):
                 steps.append(("cont",))
                 continue
+            if isinstance(st, ast.Raise):
+                steps.append(("raise",))
+                continue
+            if isinstance(st, ast.Assert):
+                t_ = self.formula(st.test, env)
+                steps.append(("if", t_, (lambda a: ("fall", None)), (lambda a: ("raise", None))))
+                continue
             if isinstance(st, (ast.For, ast.While, ast.With, ast.Try)):
                 raise Undecidable(f"statement `{type(st).__name__}` inside a decision block")
             # other statements (calls, assignments of non-boolean values) do not decide anything
@@ -158,6 +165,8 @@ class Table:
                     return ("return", bool(s[1](a)))
                 elif s[0] == "cont":
                     return ("continue", None)
+                elif s[0] == "raise":
+                    return ("raise", None)
             return ("fall", None)
         return run
 
